@@ -83,10 +83,15 @@ class SimQueue:
     def __init__(self, k, maxsize=0):
         self.k = k
         self.q = []
+        self.quiet_gets = 0      # timed-out get() calls since the last put (observation only)
+        if not hasattr(k, "queues"):
+            k.queues = []
+        k.queues.append(self)
 
     def put_nowait(self, x):
         self.k.check_abort()
         self.q.append(x)
+        self.quiet_gets = 0
         self.k.point("q.put")
 
     def put(self, x, block=True, timeout=None):
@@ -97,6 +102,7 @@ class SimQueue:
             return self.get_nowait()
         self.k.block(lambda: bool(self.q), timeout, "q.get")
         if not self.q:
+            self.quiet_gets += 1
             raise _queue.Empty
         return self.q.pop(0)
 
